@@ -777,6 +777,12 @@ SVD_HOOK = [None]
 
 
 def _pinv(a, rcond=None, **kw):
+    rc = rcond if rcond is not None else kw.get('rtol')
+    if rc is not None and not (isinstance(rc, (int, float, Fraction)) and rc <= 1e-9):
+        # a truncating pseudo-inverse is not the inverse: the exact-inverse model would be wrong
+        raise S.SymbolicLeak('pinv with a truncation threshold (rcond=%r) is not modelled' % (rc,))
+    if hasattr(a, 'factors') and PINV_HOOK[0] is not None:      # lazylin.LazyMat
+        return PINV_HOOK[0](a)
     a = asarray(a)
     StubLog.note('linalg.pinv[%s]' % (a.shape,))
     h = PINV_HOOK[0]
